@@ -53,6 +53,22 @@ CHECKS = {
             'time/after/idle values logged by guards and contract conditions are recomputed exactly from observed entry/'
             'firing stamps; time frozen per step under mid-step clock moves.',
             'trusted: stamp model in vf/props/c13.py; dyadic times', '§4 C13'),
+    'C11': ('exploration', 'runtime monitor: structural field comparison + == + second round trip + lock-step differential run of original vs re-import',
+            'Generated charts with YAML-significant/unicode/multi-line/>80-column strings in every field, API-built with shuffled '
+            'declarations; export/import compared field by field, by ==, re-exported, and executed side by side.',
+            'trusted: ruamel.yaml itself for characters excluded in ASSUMPTIONS; comparison code in vf/props/c11.py', '§4 C11'),
+    'C12': ('fault_enumeration', 'runtime fault injection: every listed fault at every position of generated valid documents (pairs/triples in thorough) + independent soundness checker on accepted results',
+            'Each fault operator provably produces a listed fault; a faulted document must raise StatechartError; valid documents must be '
+            'accepted and sound. Exhaustive over positions per document, sampled over documents.',
+            'trusted: fault operators and the soundness checker in vf/props/c12.py', '§4 C12'),
+    'C16': ('exploration', 'model-based runtime monitor: dict model of the seven editing operations in lock-step, soundness rules, pre/post snapshots for atomicity',
+            'Random sequences of valid and invalid editing calls on generated and empty statecharts; view == model, soundness, failed edit '
+            'changes nothing.',
+            'trusted: the dict model (docstrings as specification)', '§4 C16'),
+    'C17': ('exploration', 'runtime differential monitor with name map: original vs rename_state-d chart, guest alone vs guest plugged with copy_from_statechart',
+            'Order-preserving renamings of random subsets (optionally after a warm-up execution) and host/guest pairs (whole chart or '
+            'sub-tree of a donor), compared in lock-step up to the renaming.',
+            'trusted: lock-step projection, fixed-width naming scheme', '§4 C17'),
 }
 
 NOT_YET = {
